@@ -652,6 +652,9 @@ pub struct HistFamily {
   /// emphasise snapshot / rebuild / enumeration (C17) or expiry reads (C12)
   pub snapshots: bool,
   pub faults: bool,
+  /// stale-while-revalidate focus: loader, short TTL, grace window, several keys going stale together and runs of
+  /// fetch_with over them, so that a refresh trigger meets the pending-load stripe while it is busy with another key
+  pub stale_focus: bool,
 }
 
 impl HistFamily {
@@ -659,6 +662,18 @@ impl HistFamily {
     let k = rng.below(keys as u64) as u8;
     let cost = *rng.pick(&[1u64, 1, 1, 2, 3, 0]);
     const ADV: [u64; 14] = [1, 999, 1_000, 1_001, 1_999, 2_000, 2_001, 4_999, 5_000, 5_001, 10_000, 20_000, 50_000, 3];
+    if self.stale_focus {
+      return match rng.below(20) {
+        0..=3 => COp::Insert { k, cost },
+        4 => COp::MultiInsert { items: (0..rng.range(2, keys as u64) as u8).map(|i| (i, 1)).collect() },
+        5..=12 => COp::FetchWith { k },
+        13..=15 => COp::Advance { ns: *rng.pick(&[999u64, 1_000, 1_001, 1_999, 3, 5_000]) },
+        16 => COp::Get { k },
+        17 => COp::Yield,
+        18 => COp::RunMaintenance,
+        _ => COp::Peek { k },
+      };
+    }
     loop {
       let op = match rng.below(30) {
         0..=4 => COp::Insert { k, cost },
@@ -737,20 +752,21 @@ impl Family for HistFamily {
       6 => Some(1000),
       _ => Some(*rng.pick(&[2u64, 3, 4, 6, 8])),
     };
+    let capacity = if self.stale_focus { None } else { capacity };
     let policy = if capacity.is_none() { *rng.pick(&[PolicyKind::Null, PolicyKind::Null, PolicyKind::Lru, PolicyKind::Fifo, PolicyKind::Sieve]) } else { *rng.pick(&PolicyKind::ALL[..8]) };
-    let loader = if rng.chance(1, 3) { *rng.pick(&[LoaderKind::Sync, LoaderKind::Async]) } else { LoaderKind::None };
+    let loader = if rng.chance(1, 3) || self.stale_focus { *rng.pick(&[LoaderKind::Sync, LoaderKind::Async]) } else { LoaderKind::None };
     let n = rng.range(4, 14);
     let ops: Vec<COp> = (0..n).map(|_| self.gen_op(rng, keys, loader != LoaderKind::None)).collect();
     let restore_at = if self.snapshots && rng.chance(1, 2) { Some(rng.range(1, n) as usize) } else { None };
-    let ttl_ns = if rng.chance(3, 5) { Some(*rng.pick(&[1_000u64, 5_000, 20_000])) } else { None };
+    let ttl_ns = if self.stale_focus { Some(1_000) } else if rng.chance(3, 5) { Some(*rng.pick(&[1_000u64, 5_000, 20_000])) } else { None };
     let base = CacheSc {
       shards,
       capacity,
       policy,
       default_policy: capacity.is_some() && rng.chance(1, 8),
       ttl_ns,
-      tti_ns: if rng.chance(2, 5) { Some(*rng.pick(&[2_000u64, 10_000])) } else { None },
-      swr_ns: if ttl_ns.is_some() && loader != LoaderKind::None && rng.chance(2, 3) { Some(*rng.pick(&[1_000u64, 10_000])) } else { None },
+      tti_ns: if !self.stale_focus && rng.chance(2, 5) { Some(*rng.pick(&[2_000u64, 10_000])) } else { None },
+      swr_ns: if ttl_ns.is_some() && loader != LoaderKind::None && (self.stale_focus || rng.chance(2, 3)) { Some(*rng.pick(&[1_000u64, 10_000])) } else { None },
       listener: rng.chance(1, 4),
       slow_listener_yields: 0,
       loader,
